@@ -99,6 +99,42 @@ type verifC06Env struct {
 	nonTrivial bool
 	// addresses whose account was removed since the last commit / revert to zero (see verifC06KnownRecreate)
 	removedSinceCommit map[int]bool
+
+	opAddr []int                 // parallel to ops: the address index the operation touched
+	held   map[int]*verifC06Held // account instances the "caller" still holds, by address index
+}
+
+// verifC06Held is an account instance kept by the caller after SaveAccount, the way transaction processors keep
+// acntSnd/acntDst across several SaveAccount calls (fee, then value; sender == receiver). It may be used again
+// (mutated further and saved again without LoadAccount) as long as it is the only instance through which the
+// address was changed since it was loaded - also after a RevertToSnapshot(n > 0) that undid some or all of its
+// saves ("retry with the same handler"). shadow holds the field values of the instance (what a save of it writes).
+type verifC06Held struct {
+	acc       state.UserAccountHandler
+	shadow    *verifC06Acc
+	setCode   bool // SetCode was called on this instance: a save of it (re)establishes shadow.code
+	loadedAt  int  // len(ops) when the instance was loaded
+	prevTouch int  // index of the last operation that touched the address before the load, -1 if none
+}
+
+func (e *verifC06Env) lastTouchBefore(ai int, limit int) int {
+	for i := limit - 1; i >= 0; i-- {
+		if e.opAddr[i] == ai {
+			return i
+		}
+	}
+	return -1
+}
+
+// dropHeldAfterRevert keeps only the instances that are still a consistent continuation of the state reverted to:
+// the instance was loaded before the snapshot, or it was loaded after it from a state of its address that the
+// revert re-establishes (nothing touched the address between the snapshot and the load).
+func (e *verifC06Env) dropHeldAfterRevert(opIndex int) {
+	for ai, h := range e.held {
+		if h.loadedAt >= opIndex && h.prevTouch >= opIndex {
+			delete(e.held, ai)
+		}
+	}
 }
 
 // verifC06KnownRecreate is the class key of the defect found by this check (see TestVerifC06_Regress): an account
@@ -315,19 +351,53 @@ func (e *verifC06Env) classifyRefDrop(before []int, how string) {
 func (e *verifC06Env) opMutateSave() {
 	rt := e.rt
 	ai := rapid.IntRange(0, len(e.addrs)-1).Draw(rt, "acc")
-	acc, err := e.f.Adb.LoadAccount(e.addrs[ai])
-	e.fixture(err, "LoadAccount")
-	ua := acc.(state.UserAccountHandler)
-	m, exists := e.model[ai]
+	cur, exists := e.model[ai]
+	var stateCode []byte
+	stateStorage := map[string][]byte{}
+	if exists {
+		stateCode = cur.code
+		for k, v := range cur.storage {
+			stateStorage[k] = verifSAClone(v)
+		}
+	}
 	var flags verifC06OpFlags
-	if !exists {
-		m = &verifC06Acc{balance: big.NewInt(0), devReward: big.NewInt(0), storage: map[string][]byte{}}
-		flags.createRemove = true
+	flags.createRemove = !exists
+	var ua state.UserAccountHandler
+	var m *verifC06Acc
+	h := e.held[ai]
+	reuse := h != nil && rapid.Bool().Draw(rt, "reuseHeldInstance")
+	if reuse {
+		// the caller goes on with the instance it already holds: what gets saved are the fields of the instance;
+		// storage is what the state holds (pending writes were flushed by the earlier save, a revert undid them in
+		// the shared data trie); code is the instance's only if SetCode was called on it
+		ua = h.acc
+		m = verifC06Model{0: h.shadow}.clone()[0]
+		m.storage = stateStorage
+		if !h.setCode {
+			m.code = verifSAClone(stateCode)
+		}
+		e.c.Class("save-through-held-instance")
+		if !exists || !bytes.Equal(m.code, stateCode) || m.nonce != cur.nonce || m.balance.Cmp(cur.balance) != 0 {
+			e.c.Class("save-through-held-instance-after-its-save-was-reverted")
+		}
+	} else {
+		acc, err := e.f.Adb.LoadAccount(e.addrs[ai])
+		e.fixture(err, "LoadAccount")
+		ua = acc.(state.UserAccountHandler)
+		h = &verifC06Held{acc: ua, loadedAt: len(e.ops), prevTouch: e.lastTouchBefore(ai, len(e.ops))}
+		if exists {
+			m = verifC06Model{0: cur}.clone()[0]
+		} else {
+			m = &verifC06Acc{balance: big.NewInt(0), devReward: big.NewInt(0), storage: map[string][]byte{}}
+		}
 	}
 	before := e.refCounts()
 	desc := fmt.Sprintf("save a%d", ai)
 	if exists {
 		desc = fmt.Sprintf("update a%d", ai)
+	}
+	if reuse {
+		desc += "(held instance)"
 	}
 	mask := rapid.IntRange(0, 63).Draw(rt, "mutations")
 	if rapid.IntRange(0, 5).Draw(rt, "extraFields") == 0 {
@@ -383,7 +453,7 @@ func (e *verifC06Env) opMutateSave() {
 		case ci == -1:
 			code = []byte{}
 		}
-		oldCode := m.code
+		h.setCode = true
 		ua.SetCode(code)
 		if len(code) == 0 {
 			m.code = nil
@@ -391,13 +461,13 @@ func (e *verifC06Env) opMutateSave() {
 			m.code = verifSAClone(code)
 		}
 		desc += fmt.Sprintf(" code=%d", ci)
-		if !bytes.Equal(oldCode, m.code) {
-			// shared = the old or the new code is carried by another account as well
-			others := e.model.clone()
-			delete(others, ai)
-			if (len(oldCode) > 0 && others.refs(oldCode) > 0) || (len(m.code) > 0 && others.refs(m.code) > 0) {
-				flags.sharedCode = true
-			}
+	}
+	if !bytes.Equal(stateCode, m.code) {
+		// shared = the old or the new code is carried by another account as well
+		others := e.model.clone()
+		delete(others, ai)
+		if (len(stateCode) > 0 && others.refs(stateCode) > 0) || (len(m.code) > 0 && others.refs(m.code) > 0) {
+			flags.sharedCode = true
 		}
 	}
 	if mask&32 != 0 && e.removedSinceCommit[ai] && kit.IsKnown(verifC06KnownRecreate) {
@@ -431,8 +501,11 @@ func (e *verifC06Env) opMutateSave() {
 	}
 	e.model[ai] = m
 	e.logf("%s", desc)
-	e.fixture(e.f.Adb.SaveAccount(acc), "SaveAccount")
+	e.fixture(e.f.Adb.SaveAccount(ua), "SaveAccount")
 	e.ops = append(e.ops, flags)
+	e.opAddr = append(e.opAddr, ai)
+	h.shadow = verifC06Model{0: m}.clone()[0]
+	e.held[ai] = h
 	e.c.Class("op-save")
 	e.classifyRefDrop(before, "save")
 	e.afterStep(desc)
@@ -456,6 +529,7 @@ func (e *verifC06Env) opRemove() {
 		obsBefore, rootBefore = e.observe()
 	}
 	jl := e.f.Adb.JournalLen()
+	delete(e.held, ai) // whatever the outcome, a held instance of this address is not used any more
 	err := e.f.Adb.RemoveAccount(e.addrs[ai])
 	if !exists {
 		e.c.Class("op-remove-absent")
@@ -480,6 +554,8 @@ func (e *verifC06Env) opRemove() {
 		if jl == 0 { // revert to zero recreates the committed state and drops the journal
 			e.stack = nil
 			e.ops = nil
+			e.opAddr = nil
+			e.held = map[int]*verifC06Held{}
 		}
 		e.checkRestored(obsBefore, rootBefore, fmt.Sprintf("RevertToSnapshot(%d) following a rejected RemoveAccount", jl), "rejected-remove")
 		e.afterStep("revert of rejected remove")
@@ -489,6 +565,7 @@ func (e *verifC06Env) opRemove() {
 	delete(e.model, ai)
 	e.removedSinceCommit[ai] = true
 	e.ops = append(e.ops, verifC06OpFlags{createRemove: true})
+	e.opAddr = append(e.opAddr, ai)
 	e.logf("remove a%d", ai)
 	e.c.Class("op-remove")
 	e.classifyRefDrop(before, "remove")
@@ -529,6 +606,14 @@ func (e *verifC06Env) opRevert() {
 	e.model = s.model.clone()
 	e.stack = e.stack[:si+1]
 	e.ops = e.ops[:s.opIndex]
+	e.opAddr = e.opAddr[:s.opIndex]
+	if s.journalLen == 0 {
+		// RevertToSnapshot(0) recreates the tries from storage without running the journal: instances loaded
+		// before are detached from the new tries
+		e.held = map[int]*verifC06Held{}
+	} else {
+		e.dropHeldAfterRevert(s.opIndex)
+	}
 	e.c.Class("op-revert")
 	{
 		if undone.storage {
@@ -573,6 +658,8 @@ func (e *verifC06Env) opCommit() {
 	e.ops = nil
 	e.committed = e.model.clone()
 	e.removedSinceCommit = map[int]bool{}
+	e.opAddr = nil
+	e.held = map[int]*verifC06Held{} // Commit drops the data-trie cache: callers load accounts again
 	e.c.Class("op-commit")
 	obs, r2 := e.observe()
 	e.sanity(obs, "commit")
@@ -603,6 +690,8 @@ func (e *verifC06Env) opRevertZero() {
 	e.model = e.committed.clone()
 	e.stack = nil
 	e.ops = nil
+	e.opAddr = nil
+	e.held = map[int]*verifC06Held{}
 	e.removedSinceCommit = map[int]bool{}
 	e.c.Class("op-revert-zero")
 	if e.mode == "C06" && undone.storage && undone.sharedCode && undone.createRemove {
@@ -630,7 +719,7 @@ func verifC06Program(rt *rapid.T, c *kit.Case, mode string) {
 		rt.Fatalf("fixture: %v", err)
 	}
 	defer f.Close()
-	e := &verifC06Env{rt: rt, c: c, mode: mode, f: f, model: verifC06Model{}, committed: verifC06Model{}, removedSinceCommit: map[int]bool{}}
+	e := &verifC06Env{rt: rt, c: c, mode: mode, f: f, model: verifC06Model{}, committed: verifC06Model{}, removedSinceCommit: map[int]bool{}, held: map[int]*verifC06Held{}}
 
 	nAddr := rapid.IntRange(3, 6).Draw(rt, "nAddr")
 	tails := []byte{0x00, 0x01, 0x10, 0x11, 0xff}
